@@ -362,7 +362,9 @@ def run_ops_once(pid, wd, hbin, build, ops_lines, name):
     """run one ops list on impl + model + monitor; returns (failing?, details)"""
     ops = os.path.join(wd, name + ".ops"); obs = os.path.join(wd, name + ".obs")
     open(ops, "w").write("\n".join(ops_lines) + "\n")
-    rc, out = sh([hbin, "run", "--ops", ops, "--obs", obs], timeout=60)
+    # a single call that does not return is cut by the harness's own watchdog; the process limit only has to scale
+    # with the size of the file (the thorough enumeration replays millions of lines)
+    rc, out = sh([hbin, "run", "--ops", ops, "--obs", obs], timeout=max(60, 60 + len(ops_lines) // 2000))
     r = dict(tag=name, profile="replay", build=build, seed=0, hists=1, ops=ops, obs=obs, diffs=[], mon=[], hang=None, stats={}, stat={}, lines=0)
     if rc == 124: r["hang"] = "a call did not return"
     elif rc != 0 and rc != 1: r["hang"] = "harness crashed rc=%d" % rc
